@@ -21,6 +21,11 @@ fn main() {
             e.space::<4>(4);
             e.space::<8>(4);
         }
+        if e.cx.shard.0 == 0 && e.cx.only_hist.is_none() {
+            e.zst::<1>();
+            e.zst::<2>();
+            e.zst::<3>();
+        }
         e.cx.rep.exhaustive = e.cx.only_hist.is_none();
         if random > 0 {
             e.random::<8>(random / 2);
